@@ -567,8 +567,91 @@ def _read_lines(path):
     return res
 
 
-def process_template(path, name=None):
+def bit_bridge_lemma(name, body_text, consts=None):
+    """R13: for the literal masks and shift counts that occur in a function, the facts that link the bit-level form to the
+    arithmetic form (x & 31 == x % 32, x >> 3 == x / 8, (x & 0xff00) >> 8 == x / 256 % 256, ...), for every unsigned type,
+    each proved by Verus' bit-vector mode.  Returns (lemma name, lemma text) or None."""
+    m = mask_noncode(body_text)
+    def lit(v):
+        v = v.replace('_', '')
+        v = re.sub(r'(u8|u16|u32|u64|usize|i32|i64|isize)$', '', v)
+        try:
+            return int(v, 16) if v.lower().startswith('0x') else int(v)
+        except ValueError:
+            return None
+    masks = set(); shr = set(); shl = set()
+    for mm in re.finditer(r'&=?\s*(0x[0-9a-fA-F_]+\w*|\d[\d_]*\w*)', m):
+        v = lit(mm.group(1))
+        if v is not None and 0 < v < (1 << 32): masks.add(v)
+    for mm in re.finditer(r'(0x[0-9a-fA-F_]+\w*|\d[\d_]*\w*)\s*&(?!&)', m):
+        v = lit(mm.group(1))
+        if v is not None and 0 < v < (1 << 32): masks.add(v)
+    for mm in re.finditer(r'>>=?\s*(\d+)', m):
+        shr.add(int(mm.group(1)))
+    for mm in re.finditer(r'<<=?\s*(\d+)', m):
+        shl.add(int(mm.group(1)))
+    # a power-of-two modulus / divisor / factor may have been a mask / shift before (or become one)
+    for mm in re.finditer(r'[%/*]=?\s*(0x[0-9a-fA-F_]+\w*|\d[\d_]*\w*)', m):
+        v = lit(mm.group(1))
+        if v and v > 1 and v & (v - 1) == 0 and v < (1 << 32):
+            masks.add(v - 1); shr.add(v.bit_length() - 1); shl.add(v.bit_length() - 1)
+    # named constants with a literal value count like literals; their values are stated so that `x & (W - 1)` and `x & 31` unify
+    eqs = []
+    for cname, cval in sorted((consts or {}).items()):
+        if not re.search(r'(?<![A-Za-z0-9_])%s(?![A-Za-z0-9_])' % re.escape(cname), m) or not (0 < cval < (1 << 32)):
+            continue
+        eqs.append('%s == %d' % (cname, cval))
+        if re.search(r'(?<![A-Za-z0-9_])%s\s*-\s*1(?![0-9])' % re.escape(cname), m):
+            eqs.append('%s - 1 == %d' % (cname, cval - 1))
+        for v in (cval, cval - 1, cval + 1):
+            if v > 0 and (v + 1) & v == 0:
+                masks.add(v)
+        if cval & (cval - 1) == 0 and cval > 1:
+            shr.add(cval.bit_length() - 1); shl.add(cval.bit_length() - 1)
+        elif cval < 64:
+            shr.add(cval); shl.add(cval)
+    facts = []
+    for (ty, bits) in (('u8', 8), ('u16', 16), ('u32', 32), ('usize', 64)):
+        for M in sorted(masks):
+            if M >= (1 << bits):
+                continue
+            if (M + 1) & M == 0:
+                facts.append('forall|x: %s| #![trigger x & %d%s] x & %d%s == x %% %d%s' % (ty, M, ty, M, ty, M + 1, ty) if M + 1 < (1 << bits) else
+                             'forall|x: %s| #![trigger x & %d%s] x & %d%s == x' % (ty, M, ty, M, ty))
+            else:
+                tz = (M & -M).bit_length() - 1
+                w = M >> tz
+                if (w + 1) & w == 0:
+                    wd = w + 1
+                    facts.append('forall|x: %s| #![trigger x & %d%s] (x & %d%s) >> %d%s == (x / %d%s) %% %d%s && (x & %d%s) %% %d%s == 0'
+                                 % (ty, M, ty, M, ty, tz, ty, 1 << tz, ty, wd, ty, M, ty, 1 << tz, ty) if (wd << tz) < (1 << bits) else
+                                 'forall|x: %s| #![trigger x & %d%s] (x & %d%s) >> %d%s == x / %d%s && (x & %d%s) %% %d%s == 0'
+                                 % (ty, M, ty, M, ty, tz, ty, 1 << tz, ty, M, ty, 1 << tz, ty))
+        for K in sorted(shr):
+            if 0 < K < bits:
+                facts.append('forall|x: %s| #![trigger x >> %d%s] x >> %d%s == x / %d%s' % (ty, K, ty, K, ty, 1 << K, ty))
+        for K in sorted(shl):
+            if 0 < K < bits:
+                facts.append('forall|x: %s| #![trigger x << %d%s] x < %d%s ==> x << %d%s == (x * %d%s) as %s' % (ty, K, ty, 1 << (bits - K), ty, K, ty, 1 << K, ty, ty))
+    # truncating casts: (x as u8) is x modulo 256, etc.
+    widths = {'u8': 8, 'u16': 16, 'u32': 32, 'usize': 64}
+    for U in ('u8', 'u16', 'u32'):
+        if not re.search(r'\bas\s+%s\b' % U, m):
+            continue
+        for T in ('u16', 'u32', 'usize'):
+            if widths[T] > widths[U]:
+                facts.append('forall|x: %s| #![trigger (x as %s)] (x as %s) as %s == x %% %d%s' % (T, U, U, T, 1 << widths[U], T))
+    if not facts:
+        return None
+    body = '\n'.join('    assert(%s) by (bit_vector);' % f for f in facts)
+    ens = ',\n'.join('    ' + f for f in eqs + facts)
+    return name, '// ---- R13: bit-vector bridge lemmas (generated)\npub proof fn %s()\n  ensures\n%s,\n{\n%s\n}' % (name, ens, body)
+
+
+def process_template(path, name=None, auto_bits=()):
+    """auto_bits: names of functions that get the bit-vector bridge lemmas (second attempt after a failed proof, see R13)."""
     unit = Unit(name or os.path.splitext(os.path.basename(path))[0])
+    unit.auto_lemmas = []
     lines = _read_lines(path)
     out = []
     i = 0
@@ -737,6 +820,28 @@ def process_template(path, name=None):
             if spec.get('rename'):
                 t = re.sub(r'\bfn\s+%s\b' % re.escape(fname), 'fn ' + spec['rename'], t, count=1)
                 fname = spec['rename']
+            if fname in auto_bits or (spec.get('rename') or fname) in auto_bits or '*' in auto_bits:
+                consts = {}
+                for rel2 in sorted(set(list(unit.sources) + [rel])):
+                    try:
+                        s2, m2 = read_repo(rel2)
+                    except Exception:
+                        continue
+                    for it2 in items_in(s2, m2, 0, len(s2)):
+                        if it2.kind == 'const':
+                            cm = re.search(r'=\s*(0x[0-9a-fA-F_]+|\d[\d_]*)\s*(?:u8|u16|u32|u64|usize)?\s*;', it2.text)
+                            if cm:
+                                consts[it2.name] = int(cm.group(1).replace('_', ''), 0)
+                lem = bit_bridge_lemma('auto_bits_' + re.sub(r'\W', '_', (impl_ctx or '') + '_' + fname), t + '\n' + '\n'.join(l for l in lines if 'spec fn' in l or not l.lstrip().startswith('//')), consts)
+                if lem:
+                    unit.auto_lemmas.append(lem[1])
+                    call = '    proof { %s(); }\n' % lem[0]
+                    spec['entry'] = call + spec.get('entry', '')
+                    nl = len(_loop_heads(mask_noncode(t[mask_noncode(t).index('{'):])))
+                    for k in range(nl):
+                        spec['loops'].setdefault(k, {})
+                        spec['loops'][k]['body'] = call + spec['loops'][k].get('body', '')
+                    unit.notes.append('R13 bit-vector bridge lemmas added to %s' % fname)
             if spec.get('cases'):
                 # R11 case split: one copy of the function per listed match arm; in copy i the other listed arms start with
                 # `assume(false)`, i.e. copy i carries exactly the obligations of the paths through arm i (plus everything
@@ -790,12 +895,42 @@ def process_template(path, name=None):
             i += 1
             continue
         raise ExtractError("unknown directive: %s" % d)
-    unit.text = '\n'.join(out)
+    text = '\n'.join(out)
+    # R12: module-level constants of the source files that the extracted code mentions but the template does not list are
+    # extracted too (a literal replaced by a named constant of the same value must not break the extraction)
+    mt = mask_noncode(text)
+    added = []
+    for rel in sorted(unit.sources):
+        try:
+            src, masked = read_repo(rel)
+        except Exception:
+            continue
+        for it in items_in(src, masked, 0, len(src)):
+            if it.kind != 'const' or not it.name or not re.match(r'^[A-Z][A-Z0-9_]*$', it.name):
+                continue
+            if not re.search(r'(?<![A-Za-z0-9_])%s(?![A-Za-z0-9_])' % re.escape(it.name), mt):
+                continue
+            if re.search(r'\bconst\s+%s\b' % re.escape(it.name), mt) or it.name in [a for a, _ in added]:
+                continue
+            ctext = re.sub(r'^(\s*)(?:pub(?:\([^)]*\))?\s+)?const\b', r'\1pub const', it.text.strip(), count=1)
+            if not ctext.rstrip().endswith(';'):
+                continue
+            added.append((it.name, '// ---- R12: constant extracted from %s:%d\n%s' % (rel, it.line, ctext)))
+    if added:
+        k = text.find('verus! {')
+        k = text.find('\n', k) + 1 if k >= 0 else 0
+        text = text[:k] + '\n'.join(c for _, c in added) + '\n' + text[k:]
+        unit.notes.append('R12 constants extracted automatically: ' + ', '.join(n for n, _ in added))
+    if unit.auto_lemmas:
+        k = text.find('verus! {')
+        k = text.find('\n', k) + 1 if k >= 0 else 0
+        text = text[:k] + '\n'.join(unit.auto_lemmas) + '\n' + text[k:]
+    unit.text = text
     return unit
 
 
 if __name__ == '__main__':
     import sys
-    u = process_template(sys.argv[1])
+    u = process_template(sys.argv[1], auto_bits=tuple(os.environ.get('VERIF_AUTOBITS', '').split(',')) if os.environ.get('VERIF_AUTOBITS') else ())
     sys.stdout.write(u.text)
     sys.stderr.write(json.dumps({'fns': u.fns, 'notes': u.notes}, indent=1) + '\n')
